@@ -32,4 +32,6 @@ Fixpoint set_token (d : Z) (e : E) (reg : list (Z * E)) : list (Z * E) :=
   | (k, x) :: rest => if k =? d then (d, e) :: rest else (k, x) :: set_token d e rest
   end.
 Definition remove_token (d : Z) (reg : list (Z * E)) : list (Z * E) := filter (fun kv => negb (fst kv =? d)) reg.
+(* MsgSetRegistry: the list of the message, whatever its length, replaces the stored one *)
+Definition set_registry (new old : list (Z * E)) : list (Z * E) := new.
 End Edits.
